@@ -681,6 +681,8 @@ static void body(void)
 	if (base_alive) {
 		int fail = (rs + nns) & 1;
 		free_base(fail);
+		if (base_alive) { io_passes(); free_base(fail); }      /* a guard skipped it: let the scheduled callbacks run first */
+		if (base_alive) { mc_fail("harness:final-free", "could not free the base"); return; }
 	}
 	for (int i = 0; i < 8; i++) {
 		io_passes();
